@@ -245,8 +245,20 @@ class Context:
         self.rng_audit = []
         self.var_sign = {}           # var id -> '+', '0+' (>= 0) or 'pm1'
         self.raw_on = bool(self.opts.get('raw'))
+        self.fl_on = False           # rounding-error model, switched on by a harness around the code under test
+        self.fl_count = 0
         self.raw_nodes = []
         self.raw_claims = 0
+
+    # ---- rounding-error model -----------------------------------------
+    def fl_delta(self):
+        """1 + delta with a fresh |delta| <= 2^-53."""
+        self.fl_count += 1
+        d = self.fresh_real('fl')
+        u = Fraction(1, 2 ** 53)
+        (dv,) = d.n.vars()
+        self.defs[dv] = [Cmp.make(d.n - Poly.const(u), '<='), Cmp.make(d.n + Poly.const(u), '>=')]
+        return Sym(d.n + Poly.const(1))
 
     # ---- raw (un-normalised) term DAG ---------------------------------
     def _raw_id(self, x):
